@@ -1308,6 +1308,7 @@ def fixed_cases(ctx, B, dim_cases):
         ctx.finding("epub-blank-table-lost", f"EPUB: an all-empty 2x3 table between two filled tables is not returned in place: got {tabs!r}",
                     {"format": "epub", "xhtml_body": body, "got": tabs, "want": want})
     edge_cases(ctx, B)
+    wrapper_cases(ctx, B)
     # ODS: numbers in exponent form without a dot stay numeric
     g = [[("N", "5e3"), ("N", "1E+020"), ("N", "7"), ("N", "2.50"), ("N", "2.5e-1"), ("N", "-4E2")]]
     wantv = [[5000, 10 ** 20, 7, 2.5, 0.25, -400]]
@@ -1446,6 +1447,248 @@ def rtf_impl_text(text):
         return None, repr(e)
 
 
+# ----------------------------------------------------------------------------- decks (ODP / PPTX): frame order
+ODP_POS = ["1cm", "1cm", "2cm", "10mm", "0.5in", None, None, "-1cm", "abc", "0cm", "3.5cm", "28.35pt"]
+PPTX_POS = [(0, 0), (0, 0), (914400, 0), (914400, 914400), (0, 914400), None, None, (1, 2), (457200, 100)]
+
+
+def odp_deck_file(slides) -> bytes:
+    """slides: list of frame lists; frame = (x, y, kind, payload); kind in table / text / empty"""
+    pages = ""
+    for si, frames in enumerate(slides):
+        inner = ""
+        for x, y, kind, payload in frames:
+            a = "".join(f' svg:{k}="{v}"' for k, v in (("x", x), ("y", y)) if v is not None)
+            body = nd_xml(payload) if kind == "table" else ("<draw:text-box><text:p>" + xesc(payload) + "</text:p></draw:text-box>" if kind == "text" else "")
+            inner += f'<draw:frame{a} svg:width="5cm" svg:height="2cm">{body}</draw:frame>'
+        pages += f'<draw:page draw:name="s{si}">{inner}</draw:page>'
+    return odf_file(f"<office:presentation>{pages}</office:presentation>", "presentation")
+
+
+def ranks(keys):
+    """order-preserving ranks of (y, x) pairs of comparable numbers"""
+    ys = sorted({k[0] for k in keys})
+    xs = sorted({k[1] for k in keys})
+    return [(ys.index(k[0]), xs.index(k[1])) for k in keys]
+
+
+def coq_deck(slides):
+    return coq_list([coq_list([f"({y}%nat, {x}%nat, {coq_opt(t, coq_nd)})" for y, x, t in sl]) for sl in slides])
+
+
+def odp_deck_run(data: bytes):
+    from sharepoint2text.parsing.extractors.open_office import odp_extractor as ODP
+    root = content_root(data)
+    slides, keys = [], []
+    for page in root.iter("{%s}page" % NSMAP["draw"]):
+        sl = []
+        for f in page.findall("{%s}frame" % NSMAP["draw"]):
+            k = (ODP._parse_odf_length_to_px(f.get("{%s}y" % NSMAP["svg"])), ODP._parse_odf_length_to_px(f.get("{%s}x" % NSMAP["svg"])))
+            tb = f.find("{%s}table" % NSMAP["table"])
+            sl.append((k, None if tb is None else nd_from_et(tb)))
+            keys.append(k)
+        slides.append(sl)
+    rk = iter(ranks(keys))
+    slides = [[(*next(rk), tb) for _, tb in sl] for sl in slides]
+    try:
+        c = next(iter(ODP.read_odp(io.BytesIO(data))))
+        tabs, dims = tables_of(c)
+        return slides, tabs, dims, None
+    except Exception as e:  # noqa
+        return slides, None, None, type(e).__name__ + ": " + str(getattr(e, "__cause__", None) or e)[:120]
+
+
+def pptx_deck_file(slides) -> bytes:
+    """slides: list of shape lists; shape = (pos or None, kind, payload); kind in table / text"""
+    files = {"[Content_Types].xml": CT, "_rels/.rels": rels("ppt/presentation.xml")}
+    ids, prels = "", ""
+    for si, shapes in enumerate(slides, 1):
+        body = ""
+        for pos, kind, payload in shapes:
+            if kind == "table":
+                x = nd_xml(payload)
+                if pos is not None:
+                    x = x.replace("<p:graphicFrame>", f'<p:graphicFrame><p:xfrm><a:off x="{pos[0]}" y="{pos[1]}"/></p:xfrm>', 1)
+                body += x
+            else:
+                off = f'<a:xfrm><a:off x="{pos[0]}" y="{pos[1]}"/></a:xfrm>' if pos is not None else ""
+                body += (f'<p:sp><p:nvSpPr><p:cNvPr id="{si}" name="t"/><p:cNvSpPr/><p:nvPr/></p:nvSpPr><p:spPr>{off}</p:spPr>'
+                         f'<p:txBody><a:p><a:r><a:t>{xesc(payload)}</a:t></a:r></a:p></p:txBody></p:sp>')
+        files[f"ppt/slides/slide{si}.xml"] = f'<?xml version="1.0" encoding="UTF-8"?><p:sld{xmlns_decl()}><p:cSld><p:spTree>{body}</p:spTree></p:cSld></p:sld>'
+        ids += f'<p:sldId id="{255 + si}" r:id="rId{si}"/>'
+        prels += (f'<Relationship Id="rId{si}" Type="http://schemas.openxmlformats.org/officeDocument/2006/relationships/slide" '
+                  f'Target="slides/slide{si}.xml"/>')
+    files["ppt/presentation.xml"] = f'<?xml version="1.0" encoding="UTF-8"?><p:presentation{xmlns_decl()}><p:sldIdLst>{ids}</p:sldIdLst></p:presentation>'
+    files["ppt/_rels/presentation.xml.rels"] = ('<?xml version="1.0"?><Relationships xmlns="http://schemas.openxmlformats.org/package/2006/relationships">'
+                                                + prels + "</Relationships>")
+    return zipbytes(files)
+
+
+def pptx_deck_run(data: bytes, nslides: int):
+    from sharepoint2text.parsing.extractors.ms_modern import pptx_extractor as P
+    slides, keys = [], []
+    with zipfile.ZipFile(io.BytesIO(data)) as z:
+        for si in range(1, nslides + 1):
+            root = ET.fromstring(z.read(f"ppt/slides/slide{si}.xml"))
+            sl = []
+            tree = next(root.iter(P.P_SPTREE))
+            for sh in tree.iter():
+                if sh.tag in (P.P_SP, P.P_PIC, P.P_GRAPHICFRAME):
+                    k = P._get_shape_position(sh)
+                    nd = None
+                    if sh.tag == P.P_GRAPHICFRAME:
+                        nd = nd_from_et(sh)
+                        nd.children = [c for c in nd.children if c.tag != "p:xfrm"]
+                        nd.tail = ""
+                    sl.append((k, nd))
+                    keys.append(k)
+            slides.append(sl)
+    rk = iter(ranks(keys))
+    slides = [[(*next(rk), nd) for _, nd in sl] for sl in slides]
+    try:
+        c = next(iter(P.read_pptx(io.BytesIO(data))))
+        tabs, dims = tables_of(c)
+        return slides, tabs, dims, None
+    except Exception as e:  # noqa
+        return slides, None, None, type(e).__name__ + ": " + str(getattr(e, "__cause__", None) or e)[:120]
+
+
+def deck_cases(ctx, batch, n):
+    """several slides, frames of different kinds, positions equal / missing / unparseable / descending"""
+    rng = ctx.rng
+    DT = "list (list (nat * nat * option xml)) * option (list (list (list str)))"
+    b_od = batch("odpdeck", "corr_odp_deck", DT)
+    b_pd = batch("pptxdeck", "(corr_pptx_deck py_is_ws)", DT)
+    set_selfclose("never")
+    def small():
+        return [[[[rtext(rng, 1, 2, "abcXY")]] for _ in range(rng.randint(1, 2))] for _ in range(rng.randint(1, 2))]
+    for i in range(n):
+        mode = ["random", "same", "missing", "descending", "sorted"][i % 5]
+        # ---- ODP
+        slides, src = [], []
+        for si in range(rng.randint(1, 3)):
+            frames = []
+            for fi in range(rng.randint(1, 4)):
+                if mode == "random":
+                    x, y = rng.choice(ODP_POS), rng.choice(ODP_POS)
+                elif mode == "same":
+                    x, y = "2cm", "3cm"
+                elif mode == "missing":
+                    x, y = rng.choice([None, "-1cm", "abc"]), rng.choice([None, "-2cm", ""])
+                elif mode == "descending":
+                    x, y = "1cm", f"{9 - fi}cm"
+                else:
+                    x, y = "1cm", f"{fi + 1}cm"
+                kind = rng.choice(["table", "table", "text", "empty"])
+                g = small()
+                frames.append((x, y, kind, odf_r_ftable(g) if kind == "table" else "txt"))
+                if kind == "table":
+                    src.append((si, fi, [["\n".join(para_text(p) for p in c) for c in r] for r in g]))
+            slides.append(frames)
+        data = odp_deck_file(slides)
+        ms, tabs, dims, err = odp_deck_run(data)
+        b_od.add(f"({coq_deck(ms)}, " + ("None" if tabs is None else f"(Some {coq_tables(tabs)})") + ")", ("odpdeck", mode, repr(slides)[:300]))
+        ctx.case(("odpdeck", repr([[f[:3] for f in sl] for sl in slides]), repr(src)), bool(tabs), "odp:deck-" + mode)
+        desc = [[(f[0], f[1], f[2]) for f in sl] for sl in slides]
+        if tabs is None:
+            ctx.finding("odp-deck-extraction-raised", f"ODP: read_odp fails for the whole deck ({err}) on frames (x, y, kind) per slide {desc!r}; every table of the deck is lost",
+                        {"format": "odp", "slides": desc, "error": err, "tables": [s_[2] for s_ in src]})
+        else:
+            if sorted(map(repr, tabs)) != sorted(repr(s_[2]) for s_ in src):
+                ctx.finding("odp-deck-tables-lost-or-invented", f"ODP deck: tables {tabs!r} are not the source tables {[s_[2] for s_ in src]!r} (frames {desc!r})",
+                            {"format": "odp", "slides": desc, "got": tabs, "want": [s_[2] for s_ in src]})
+            elif mode in ("same", "missing", "sorted") and tabs != [s_[2] for s_ in src]:
+                ctx.finding("odp-deck-tables-out-of-source-order", f"ODP deck ({mode} positions): tables {tabs!r} are not in source order {[s_[2] for s_ in src]!r}",
+                            {"format": "odp", "slides": desc, "got": tabs, "want": [s_[2] for s_ in src]})
+        # ---- PPTX
+        slides, src = [], []
+        for si in range(rng.randint(1, 3)):
+            shapes = []
+            for fi in range(rng.randint(1, 4)):
+                if mode == "random":
+                    pos = rng.choice(PPTX_POS)
+                elif mode == "same":
+                    pos = (914400, 914400)
+                elif mode == "missing":
+                    pos = None
+                elif mode == "descending":
+                    pos = (0, (9 - fi) * 100000)
+                else:
+                    pos = (0, (fi + 1) * 100000)
+                kind = rng.choice(["table", "table", "text"])
+                g = small()
+                shapes.append((pos, kind, pptx_r_frame(g) if kind == "table" else "txt"))
+                if kind == "table":
+                    src.append((si, fi, [["\n".join(para_text(p) for p in c).strip() for c in r] for r in g]))
+            slides.append(shapes)
+        data = pptx_deck_file(slides)
+        ms, tabs, dims, err = pptx_deck_run(data, len(slides))
+        b_pd.add(f"({coq_deck(ms)}, " + ("None" if tabs is None else f"(Some {coq_tables(tabs)})") + ")", ("pptxdeck", mode, repr([[s_[:2] for s_ in sl] for sl in slides])))
+        ctx.case(("pptxdeck", repr([[s_[:2] for s_ in sl] for sl in slides]), repr(src)), bool(tabs), "pptx:deck-" + mode)
+        desc = [[(s_[0], s_[1]) for s_ in sl] for sl in slides]
+        if tabs is None:
+            ctx.finding("pptx-deck-extraction-raised", f"PPTX: read_pptx fails for the whole deck ({err}) on shapes (position, kind) per slide {desc!r}",
+                        {"format": "pptx", "slides": desc, "error": err})
+        else:
+            if sorted(map(repr, tabs)) != sorted(repr(s_[2]) for s_ in src):
+                ctx.finding("pptx-deck-tables-lost-or-invented", f"PPTX deck: tables {tabs!r} are not the source tables {[s_[2] for s_ in src]!r} (shapes {desc!r})",
+                            {"format": "pptx", "slides": desc, "got": tabs, "want": [s_[2] for s_ in src]})
+            elif mode in ("same", "missing", "sorted") and tabs != [s_[2] for s_ in src]:
+                ctx.finding("pptx-deck-tables-out-of-source-order", f"PPTX deck ({mode} positions): tables {tabs!r} are not in source order {[s_[2] for s_ in src]!r}",
+                            {"format": "pptx", "slides": desc, "got": tabs, "want": [s_[2] for s_ in src]})
+
+
+def wrapper_cases(ctx, B):
+    """rows wrapped the way ODF allows: table:table-header-rows (repeat heading rows / rows to repeat),
+    table:table-rows, table:table-row-group (outline groups, possibly nested) — ODT, ODP and ODS"""
+    set_selfclose("never")
+    grids = [EDGE_GRIDS[0], [["h1", "h2"], ["a", "b"], ["c", "d"]], [["only"]], [["x", "y", "z"], ["1", "2", "3"]]]
+    def trow(r, ods):
+        if ods:
+            return E("table:table-row", [ods_r_cell(("S", [c]) if c else ("E",), 1) for c in r])
+        return E("table:table-row", [E("table:table-cell", [E("text:p", text=c)]) for c in r])
+    def layouts(rows):
+        n = len(rows)
+        yield "header-rows", [E("table:table-header-rows", rows[:1])] + rows[1:]
+        yield "header-rows-all", [E("table:table-header-rows", rows)]
+        yield "table-rows", [E("table:table-rows", rows)]
+        yield "row-group", rows[:1] + [E("table:table-row-group", rows[1:])] if n > 1 else [E("table:table-row-group", rows)]
+        yield "nested-row-group", rows[:1] + [E("table:table-row-group", rows[1:2] + [E("table:table-row-group", rows[2:])])] if n > 2 else [E("table:table-row-group", [E("table:table-row-group", rows)])]
+        yield "header+rows", [E("table:table-header-rows", rows[:1]), E("table:table-rows", rows[1:])] if n > 1 else [E("table:table-header-rows", rows)]
+    for g in grids:
+        for ods in (False, True):
+            for name, kids in layouts([trow(r, ods) for r in g]):
+                tb = E("table:table", [E("table:table-column")] + kids)
+                ctx.case(("wrap", name, ods, repr(g)), True, "wrap")
+                if not ods:
+                    tree, tabs, _ = odt_run(odf_file(nd_xml(E("office:text", [E("text:p", text="before"), tb, E("text:p", text="after")])), "text"))
+                    B["odttree"].add(f"({coq_int_table(int_table(tree, {'text:c'}))}, {coq_nd(tree)}, {coq_tables(tabs)})", ("wrap", "odt", name))
+                    if tabs != [g]:
+                        ctx.finding("odt-wrapped-rows-lost", f"ODT: table rows inside {name} are not all returned: got {tabs!r} want {[g]!r}",
+                                    {"format": "odt", "table_xml": nd_xml(tb), "got": tabs, "want": [g]})
+                    tbls, tabs, _ = odp_run(odp_file([tb]))
+                    if len(tabs) == 1:
+                        B["odptree"].add(f"({coq_int_table(int_table(tbls[0], {'text:c'}))}, {coq_nd(tbls[0])}, {coq_sgrid(tabs[0])})", ("wrap", "odp", name))
+                    if tabs != [g]:
+                        key = "odp-rows-in-table-rows-or-row-group-dropped" if ("table-rows" in name or "row-group" in name or name == "header+rows") else "odp-wrapped-rows-lost"
+                        ctx.finding(key, f"ODP: table rows inside {name} are not all returned: got {tabs!r} want {[g]!r}",
+                                    {"format": "odp", "table_xml": nd_xml(tb), "got": tabs, "want": [g]})
+                else:
+                    tbls, tabs, _, err = ods_run(ods_file([tb]))
+                    it, ft = int_table(tbls[0], {"table:number-columns-repeated", "table:number-rows-repeated", "text:c"}), flt_table(tbls[0])
+                    B["odstree"].add(f"({coq_int_table(it)}, {coq_flt_table(ft)}, {coq_nd(tbls[0])}, " + ("None" if tabs is None else f"(Some {coq_vgrid(tabs[0])})") + ")",
+                                     ("wrap", "ods", name))
+                    spec = [[c or None for c in r] for r in g]
+                    while spec and all(v is None for v in spec[-1]):
+                        spec.pop()
+                    w = max((max((j + 1 for j, v in enumerate(r) if v is not None), default=0) for r in spec), default=0)
+                    spec = [(r + [None] * w)[:w] for r in spec]
+                    if tabs is None or tabs[0] != spec:
+                        ctx.finding("ods-rows-in-header-rows-or-row-group-dropped",
+                                    f"ODS: sheet rows inside {name} are not returned: got {None if tabs is None else tabs[0]!r} want {spec!r}",
+                                    {"format": "ods", "sheet_xml": nd_xml(tb), "got": repr(None if tabs is None else tabs[0]), "want": repr(spec)})
+
+
 # ----------------------------------------------------------------------------- the check
 SC_MODES = ["never", "always", "random"]
 PRE = ("From Coq Require Import ZArith List Bool.\nFrom S2T Require Import Lib.PyStr C13.Model C13.Corr C13.ProofsHtml "
@@ -1496,7 +1739,7 @@ def run(ctx):
     ctx.assumptions += ["CPython 3.12 str/regex whitespace; int(str(n)) = n for the repeat counts the renderer writes"]
     gen_tables(ctx)
 
-    ok1, _ = ctx.prove("C13/Props.v", timeout=400, deps=["C13/ProofsHtml.vo", "C13/ProofsOds.vo", "C13/ProofsSheets.vo", "C13/ProofsTree.vo", "C13/ProofsRtf.vo"],
+    ok1, _ = ctx.prove("C13/Props.v", timeout=400, deps=["C13/ProofsHtml.vo", "C13/ProofsOds.vo", "C13/ProofsSheets.vo", "C13/ProofsTree.vo", "C13/ProofsRtf.vo", "C13/ProofsOrder.vo"],
                        expected=["C13_get_dim_is_shape", "C13_get_dim_rect", "C13_xls_get_dim_is_shape",
                                  "C13_docx_tables_flat", "C13_docx_adjacent", "C13_docx_tables_preorder", "C13_docx_toplevel_refuted",
                                  "C13_pptx_table_roundtrip", "C13_odt_tables_flat", "C13_odt_nested_refuted", "C13_odp_table_flat", "C13_odp_cell_comment_skipped",
@@ -1506,6 +1749,7 @@ def run(ctx):
                                  "C13_xlsx_sheet_partial", "C13_xlsx_empty_header_refuted", "C13_xlsx_title_row_refuted",
                                  "C13_xlsx_typed_header_refuted", "C13_xlsx_date_header_refuted", "C13_xlsx_typed_values",
                                  "C13_ods_cell_comment_skipped", "C13_ods_nonfinite_kept_as_text",
+                                 "C13_deck_tables_perm", "C13_deck_tables_source_order", "C13_slide_tables_same_position",
                                  "C13_rtf_tables_single", "C13_rtf_tables_single_gen", "C13_rtf_pad_rows_id", "C13_rtf_tables_long_separator", "C13_rtf_adjacent_tables_merged_refuted", "C13_rtf_get_dim",
                                  "C13_xls_sheet_partial", "C13_xls_duplicate_header_refuted",
                                  "C13_xls_header_only_refuted"])
@@ -2020,6 +2264,9 @@ def run(ctx):
 
     # ---------------- witnesses of the refuted statements, on the real code
     witnesses(ctx, lambda name, fn, ty: B[name] if name in B else batch(name, fn, ty))
+
+    # ---------------- decks: order of frames / shapes
+    deck_cases(ctx, batch, n // 2)
 
     # ---------------- fixed cases
     fixed_cases(ctx, B, dim_cases)
